@@ -294,6 +294,46 @@ structure St where
   cfg : WinCfg := {}
   a : Option WinSt := none
   b : Option WinSt := none
+  src0 : List (String × SrcWm) := []
+  ta : Option WmSt := none
+  tb : Option WmSt := none
+
+def effText (w : WmSt) : String := match w.effective with | some t => toString t | none => "-"
+
+/-- the tracker's checkpoint carries no applied watermark (the engine fills that in) -/
+def trackerCkpt (w : WmSt) : WmCkpt := { (WmSt.ckpt w) with lastAppliedMs := none, lastAppliedSub := 0 }
+
+def parseRegs (s : String) : Option (List (String × SrcWm)) :=
+  if s == "-" then some [] else
+  (s.splitOn ",").mapM fun (w : String) => match w.splitOn ":" with
+    | [n, o] => o.toInt?.map fun o => (n, ({ watermark := none, maxTs := none, oooMs := o } : SrcWm))
+    | _ => none
+
+/-- `tobs` / `tadv`: one tracker operation on the uninterrupted copy and, after the cut, on the restored one -/
+def stepTracker (st : St) (f : WmSt → WmSt) (impl : String) : St × String :=
+  match st.ta with
+  | none => (st, "BADLINE")
+  | some a =>
+    let a' := f a
+    match st.tb with
+    | none => ({ st with ta := some a' }, verdict (effText a') impl)
+    | some b =>
+      let b' := f b
+      let st' := { st with ta := some a', tb := some b' }
+      match (impl.splitOn " B=") with
+      | [ia, ib] =>
+        if (ia.drop 2).toString != ib then (st', s!"JUDGE C19 the restored tracker reports {ib}, the uninterrupted one {(ia.drop 2).toString}")
+        else (st', verdict s!"A={effText a'} B={effText b'}" impl)
+      | _ => (st', "BADLINE")
+
+def stepTcut (st : St) (impl : String) : St × String :=
+  match st.ta with
+  | none => (st, "BADLINE")
+  | some a =>
+    if impl == "unreadable" then (st, "JUDGE C19 the tracker checkpoint is unreadable") else
+    let j := wire (encWm (trackerCkpt a))
+    let b := (decWm j).map (WmSt.restore st.src0)
+    ({ st with tb := b }, if b.isNone then "DIFF model cannot read its own checkpoint" else verdict (Json.text j) impl)
 
 /-- an operation on the uninterrupted window `a` and, after a cut, on the restored one `b` -/
 def stepWin (st : St) (op : WinOp) (impl : String) : St × String :=
@@ -340,6 +380,16 @@ def step (st : St) (line : String) : St × String :=
     | some t => stepWin st (.wm t) impl
     | none => (st, "BADLINE")
   | ["wcut"] => stepWcut st impl
+  | ["tcfg", regs] => match parseRegs regs with
+    | some r => ({ src0 := r, ta := some { sources := r, effective := none, lastApplied := none }, tb := none }, "")
+    | none => (st, "BADLINE")
+  | ["tobs", src, ts] => match ts.toInt? with
+    | some t => stepTracker st (fun w => w.observe src t) impl
+    | none => (st, "BADLINE")
+  | ["tadv", src, ts] => match ts.toInt? with
+    | some t => stepTracker st (fun w => w.advance src t) impl
+    | none => (st, "BADLINE")
+  | ["tcut"] => stepTcut st impl
   | "prog" :: _ => (st, "")
   | "op" :: _ => (st, "")
   | "ev" :: ws => (st, stepEv ws impl)
